@@ -163,7 +163,7 @@ func genC12(ctx *fw.Ctx) []fw.Case {
 	// rest is a PRNG sample
 	var always, rest []corpus.Source
 	for _, b := range base {
-		if strings.HasPrefix(b.ID, "atom/module/") || strings.HasPrefix(b.ID, "atom/global/") || strings.HasPrefix(b.ID, "atom/md/tuples") || strings.HasPrefix(b.ID, "atom/types/") {
+		if strings.HasPrefix(b.ID, "atom/module/") || strings.HasPrefix(b.ID, "atom/global/") || strings.HasPrefix(b.ID, "atom/md/tuples") || strings.HasPrefix(b.ID, "atom/types/") || strings.HasPrefix(b.ID, "atom/md/di-compileunit") || strings.HasPrefix(b.ID, "atom/func/attrgroup") {
 			always = append(always, b)
 		} else {
 			rest = append(rest, b)
@@ -340,6 +340,31 @@ func c12Case(r *fw.Rec, proc int, s corpus.Source, companions []corpus.Source) {
 		}
 	}
 	verifhook.SetVisit(nil)
+	// the module a parse returned is the same module after it was printed: a
+	// second print gives the same text, and the module is still structurally
+	// what a fresh parse (printed once) is
+	if ref.accepted {
+		var t1, t2, t3, d3 string
+		if p, _, _ := fw.Guard(func() {
+			m, err := asm.ParseString(s.ID, text)
+			if err != nil || m == nil {
+				return
+			}
+			t1 = m.String()
+			t2 = m.String()
+			t3, d3 = c12Digest(m)
+		}); !p && t1 != "" {
+			r.Eval(1)
+			if t2 != t1 || t3 != t1 {
+				r.Violate(fw.Violation{Key: "reprint-differs/" + s.ID, Input: text, What: "printing the module a parse returned a second or third time gives another text: " + firstDiffLines(t1, t2+t3[:0]) + firstDiffLines(t1, t3), Expected: t1, Observed: t2})
+				return
+			}
+			if d3 != ref.digest {
+				r.Violate(fw.Violation{Key: "module-changed-by-printing/" + s.ID, Input: text, What: "after three prints the module is structurally not what a parse of the same text printed once is (printing changed the module)"})
+				return
+			}
+		}
+	}
 	diverse := 0
 	for site, set := range orders {
 		if entries[site] >= 2 {
